@@ -30,7 +30,10 @@ RULE = ("strings rendered from semantic descriptions: (a) lists/tuples/bare numb
         "prefixes such as 'np.', 'xlinspace', 'range linspace', text after ')'; (c) range/arange with 1-4 arguments, positive / "
         "negative / zero step, empty results; malformed texts of nine kinds (missing comma, double comma, unbalanced or mismatched "
         "brackets, dangling / double sign, ragged nesting) that must be rejected; (d) one- or two-character corruptions of such strings (deleted, inserted, "
-        "replaced character); (e) arrays given directly to get_increments/get_between_radii. A case is non-trivial when the "
+        "replaced character); (e) arrays given directly to get_increments/get_between_radii/PositionVoronoi.get_voronoi_radii, each in one of 15 input representations (float64, "
+        "float32, longdouble, list/tuple of floats or ints, int64/int32/uint8, strided/reversed-twice/read-only/Fortran-column views; "
+        "exhaustive over 13 fixed radii sets, seed-chosen otherwise); every text additionally in one of 11 text representations "
+        "(np.str_, blanks, tabs, LF, CRLF, CR, form feed around it; exhaustive over 9 fixed texts). A case is non-trivial when the "
         "implementation accepts it with at least one radius (or, for (e), returns boundaries); distinct by text / array. "
         "range/arange with the stop exactly on the lattice start + n*step for 1-, 2-, 3-decimal parameters (400 per unit) are a "
         "class of their own. np.arange decides its length as ceil((stop-start)/step) in float64: a case is included when that "
@@ -551,11 +554,149 @@ def gen_malformed(rng):
     return {"kind": "str", "s": ws(rng) + s + ws(rng), "alts": [], "intent": {"form": "reject"}}
 
 
+# ------------------------------------------------------------------------------------------------
+# input representations: the same radii / the same text in every form the public API accepts on the unchanged tree
+# ------------------------------------------------------------------------------------------------
+AREPS = ["f64", "list_float", "tuple_float", "list_int", "tuple_int", "int64", "int32", "uint8", "float32", "longdouble",
+         "strided", "rev2", "readonly", "int64_strided", "fortran_col"]
+INT_REPS = {"list_int": 2 ** 53, "tuple_int": 2 ** 53, "int64": 2 ** 53, "int64_strided": 2 ** 53, "int32": 2 ** 30, "uint8": 255}
+AREPS_LEFT_OUT = {
+    "0-d array / Python scalar": "IndexError / TypeError on the unchanged tree (my_array[0])",
+    "2-d row (1,n), np.matrix": "ValueError (truth value of an array) on the unchanged tree",
+    "2-d column (n,1)": "accepted without include_zero but returns shape (n,1); include_zero raises ValueError",
+    "bool array": "TypeError (boolean subtract) for n >= 2",
+    "float16": "11-bit mantissa: midpoints of the generated radii are not representable",
+    "complex, object dtype, masked array, pandas Series": "accepted but outside the requested families (Series: empty -> KeyError "
+                                                          "instead of IndexError)",
+    "single radius r as fixed-width integer array with 2*r beyond the dtype": "CANDIDATE FINDING on the unchanged tree: R_1 = 2*r_1 "
+        "is computed in the input dtype and wraps around silently: get_between_radii(np.array([200], dtype=np.uint8)) -> [144], "
+        "np.array([100], dtype=np.int8) -> [-56], np.array([2000000000], dtype=np.int32) -> [-294967296]",
+    "unsigned integer array that is not strictly increasing": "CANDIDATE FINDING on the unchanged tree: the difference wraps around "
+        "and passes the positivity assertion: get_increments(np.array([5, 3], dtype=np.uint8)) -> [5, 254], get_between_radii -> "
+        "[132., 130.] where every signed / float representation raises AssertionError",
+}
+TREPS = ["str", "np_str", "lead_blank", "trail_blank", "lead_tab", "trail_tab", "lf_tail", "crlf_tail", "cr_tail", "lf_head",
+         "crlf_head", "ff_tail"]
+TREPS_LEFT_OUT = {
+    "bytes, bytearray, np.bytes_": "TypeError on the unchanged tree ('linspace' in bytes)",
+    "memoryview, list, ndarray, number": "ValueError / TypeError on the unchanged tree (not a text)",
+    "leading newline before a text that starts with a blank or tab": "literal_eval strips blanks only at the very start: "
+        "'\\n [1]' is an IndentationError while ' [1]' is accepted - a genuine difference of Python's grammar",
+    "BOM, NUL, no-break space, vertical tab, full-width digits": "SyntaxError on the unchanged tree",
+}
+
+
+def arep_ok(name, vals):
+    """can the radii vals (Python floats) be written in representation `name` so that it denotes the same numbers and lies in the
+    domain where the unchanged tree agrees with the float64 reference?"""
+    if name in INT_REPS:
+        lim = INT_REPS[name]
+        if not all(float(v).is_integer() and abs(v) <= lim for v in vals):
+            return False
+        if name == "uint8":
+            if any(v < 0 for v in vals) or any(b <= a for a, b in zip(vals, vals[1:])):
+                return False                      # see AREPS_LEFT_OUT: unsigned wrap-around
+        if len(vals) == 1 and name in ("int32", "uint8") and 2 * abs(vals[0]) > lim:
+            return False                          # see AREPS_LEFT_OUT: 2*r_1 in the input dtype
+        return True
+    if name == "float32":
+        return all(Fraction(v).denominator <= 8 and abs(v) < 2 ** 16 for v in vals)
+    return True
+
+
+def arep_build(name, vals):
+    f = np.array(vals, dtype=float)
+    if name == "f64":
+        return f
+    if name == "list_float":
+        return [float(v) for v in vals]
+    if name == "tuple_float":
+        return tuple(float(v) for v in vals)
+    if name == "list_int":
+        return [int(v) for v in vals]
+    if name == "tuple_int":
+        return tuple(int(v) for v in vals)
+    if name in ("int64", "int32", "uint8"):
+        return np.array([int(v) for v in vals], dtype=name)
+    if name == "float32":
+        return f.astype(np.float32)
+    if name == "longdouble":
+        return f.astype(np.longdouble)
+    if name == "strided":
+        return np.array([x for v in vals for x in (v, -1.0)], dtype=float)[::2]
+    if name == "int64_strided":
+        return np.array([x for v in vals for x in (int(v), -1)], dtype=np.int64)[::2]
+    if name == "rev2":
+        return f[::-1][::-1]
+    if name == "readonly":
+        g = f.copy()
+        g.setflags(write=False)
+        return g
+    if name == "fortran_col":
+        return np.asfortranarray(np.stack([f, f + 1.0], axis=1))[:, 0] if len(vals) else f
+    raise core.HarnessError(f"unknown array representation {name}")
+
+
+def trep_ok(name, text):
+    if name in ("lf_head", "crlf_head"):
+        return bool(text) and text[0] not in " \t"
+    return True
+
+
+def trep_build(name, text):
+    return {"str": lambda t: t, "np_str": lambda t: np.str_(t), "lead_blank": lambda t: "  " + t, "trail_blank": lambda t: t + " ",
+            "lead_tab": lambda t: "\t" + t, "trail_tab": lambda t: t + "\t", "lf_tail": lambda t: t + "\n",
+            "crlf_tail": lambda t: t + "\r\n", "cr_tail": lambda t: t + "\r", "lf_head": lambda t: "\n" + t,
+            "crlf_head": lambda t: "\r\n" + t, "ff_tail": lambda t: t + "\x0c"}[name](text)
+
+
+SWEEP_RADII = [[10, 20, 30], [1, 2, 5, 6], [3, 4, 8, 9], [1, 2], [7], [0, 3, 4], [0], [100, 250], [], [5, 3], [3, 3], [0.5, 1.5, 4],
+               [2.5, 7.25, 7.5, 40]]
+SWEEP_TEXTS = [("[1, 2, 3]", {"form": "list", "values": ["1/1", "2/1", "3/1"]}),
+               ("(0.5, 0.25)", {"form": "list", "values": ["1/2", "1/4"]}),
+               ("7", {"form": "list", "values": ["7/1"]}),
+               ("[0, 1]", {"form": "list", "values": ["0/1", "1/1"]}),
+               ("linspace(1, 5, 3)", {"form": "linspace", "start": "1/1", "stop": "5/1", "num": 3, "endpoint": True}),
+               ("range(0.5, 3, 0.4)", {"form": "arange", "start": "1/2", "stop": "3/1", "step": "2/5"}),
+               ("np.arange(5, 1, -1)", {"form": "arange", "start": "5/1", "stop": "1/1", "step": "-1/1"}),
+               ("[-1, 2]", {"form": "list", "values": ["-1/1", "2/1"]}),
+               ("[1 2]", {"form": "reject"})]
+
+
+def sweep_cases():
+    """exhaustive: every included representation of every fixed radii set / fixed text"""
+    for r in SWEEP_RADII:
+        for name in AREPS:
+            if arep_ok(name, [float(v) for v in r]):
+                yield {"kind": "arr", "r": [core.rat(float(v)) for v in r], "rep": name}
+    for text, intent in SWEEP_TEXTS:
+        for t in TREPS:
+            if trep_ok(t, text):
+                for a in ("f64", "list_float", "int64", "tuple_int", "readonly"):
+                    yield {"kind": "str", "s": text, "alts": [], "intent": intent, "trep": t, "arep": a}
+
+
 def gen_arr(rng):
+    c = gen_arr_values(rng)
+    vals = [float(core.unrat(v)) for v in c["r"]]
+    c["rep"] = rng.choice([a for a in AREPS if arep_ok(a, vals)])
+    return c
+
+
+def gen_arr_values(rng):
+    if rng.random() < 0.45:
+        # integer-valued radii (odd and even differences) so that the integer representations apply
+        n = rng.choice([0, 1, 1, 2, 2, 3, 3, 4, 6, 10])
+        hi = rng.choice([12, 60, 250, 5000])
+        x = [float(rng.randint(0, hi)) for _ in range(n)]
+        if rng.random() < 0.85:
+            x = sorted(set(x))
+        return {"kind": "arr", "r": [core.rat(v) for v in x]}
     n = rng.choice([0, 1, 1, 2, 2, 3, 3, 4, 6, 10, 30])
     mode = rng.random()
     if mode < 0.7:
-        x = sorted({rng.choice([rng.uniform(0.01, 50), rng.randint(1, 400) / 8, 10 ** rng.uniform(-3, 3)]) for _ in range(n)})
+        x = sorted({rng.choice([rng.uniform(0.01, 50), rng.randint(1, 400) / 8, rng.randint(1, 400) / 8, 10 ** rng.uniform(-3, 3)])
+                    for _ in range(n)})
     elif mode < 0.8:
         x = sorted(rng.uniform(0, 50) for _ in range(n))
         if x:
@@ -621,9 +762,30 @@ CORPUS = [
 
 
 def cases(ctx):
+    for c in _cases(ctx):
+        if c["kind"] == "str" and "arep" not in c:
+            # a seed-chosen representation for every generated case: the text itself, and the grid handed to the array-level
+            # functions (impl falls back to float64 when the grid's values cannot be written that way)
+            c["arep"] = ctx.rng.choice(AREPS)
+            c["trep"] = ctx.rng.choice([t for t in TREPS if trep_ok(t, c["s"])])
+        yield c
+
+
+def _cases(ctx):
     rng = ctx.rng
     for s, intent in CORPUS:
         yield {"kind": "str", "s": s, "alts": [], "intent": intent}
+    yield from sweep_cases()
+    ctx.extra_cov["representations"] = {
+        "array_level_included": AREPS, "array_level_left_out": AREPS_LEFT_OUT,
+        "text_level_included": TREPS, "text_level_left_out": TREPS_LEFT_OUT,
+        "sweep": f"every included array representation of {len(SWEEP_RADII)} fixed radii sets and every included text "
+                 f"representation (x 5 array representations of the grid) of {len(SWEEP_TEXTS)} fixed texts; every other case carries "
+                 "one seed-chosen representation of each kind"}
+    ctx.note("representation independence: array-level functions (get_increments, get_between_radii with and without "
+             "include_zero, PositionVoronoi.get_voronoi_radii) receive the same radii as " + ", ".join(AREPS) + "; texts are also "
+             "given as " + ", ".join(TREPS[1:]) + ". The expected result comes from the denoted numbers only. Left out (raise or "
+             "genuinely differ on the unchanged tree): see coverage.representations")
     # the same radii through every syntax (hash must agree)
     yield {"kind": "str", "s": "[1, 2, 3]", "alts": ["(3,2,1)", "3, 1, 2", "linspace(1,3,3)", "linspace(3, 1, 3)", "range(1,4)",
                                                     "arange(3, 0.5, -1)", "[[1.0], [2e0], [ 30e-1 ]]", "\t[ +1 ,2.,03.0 ]"],
@@ -688,21 +850,46 @@ def _parse(s):
         return None, {"err": core.errname(e)}
 
 
-def impl(case):
+_OCTA = np.array([[1, 0, 0], [-1, 0, 0], [0, 1, 0], [0, -1, 0], [0, 0, 1], [0, 0, -1]], dtype=float)
+
+
+def _voronoi_radii(x):
+    """PositionVoronoi(o_grid, point_radii).get_voronoi_radii(): the public route to get_between_radii(.., include_zero=True)"""
+    from molgri.space.voronoi import PositionVoronoi
+    return PositionVoronoi(_OCTA, x, using_detailed_grid=False).get_voronoi_radii()
+
+
+def _array_level(vals, name):
+    """the array-level functions on the radii vals written in representation `name`; each call gets a fresh object"""
     from molgri.space.translations import get_between_radii, get_increments
+    return {"inc": _try(lambda: get_increments(arep_build(name, vals))),
+            "between": _try(lambda: get_between_radii(arep_build(name, vals))),
+            "between0": _try(lambda: get_between_radii(arep_build(name, vals), include_zero=True)),
+            # (no radii at all: the PositionVoronoi constructor itself raises ValueError before any radial function is reached;
+            #  its construction cost grows quadratically with the number of shells: 1000 shells take 3.6 s)
+            "pv": _try(lambda: _voronoi_radii(arep_build(name, vals))) if 0 < len(vals) <= 60 else None}
+
+
+def impl(case):
     if case["kind"] == "arr":
-        r = np.array([float(core.unrat(v)) for v in case["r"]], dtype=float)
-        return {"inc": _try(lambda: get_increments(r)),
-                "between": _try(lambda: get_between_radii(r)),
-                "between0": _try(lambda: get_between_radii(r, include_zero=True))}
+        vals = [float(core.unrat(v)) for v in case["r"]]
+        return _array_level(vals, case.get("rep", "f64"))
     tp, out = _parse(case["s"])
     if tp is not None:
         out["inc"] = _try(tp.get_increments)
-        g = tp.get_trans_grid()
-        out["between"] = _try(lambda: get_between_radii(g))
-        out["between0"] = _try(lambda: get_between_radii(g, include_zero=True))
+        g = np.asarray(tp.get_trans_grid())
+        vals = [float(v) for v in g.ravel()]
+        name = case.get("arep", "f64")
+        if g.ndim != 1 or not arep_ok(name, vals):
+            name = "f64"
+        out["arep_used"] = name
+        al = _array_level(vals, name) if g.ndim == 1 else _array_level(g, "f64")
+        out["inc_fn"], out["between"], out["between0"], out["pv"] = al["inc"], al["between"], al["between0"], al["pv"]
         out["sum"] = _try(tp.sum_increments_from_first_radius)
     out["alts"] = [_parse(a)[1] for a in case.get("alts", [])]
+    t = case.get("trep", "str")
+    if t != "str":
+        out["trep"] = _parse(trep_build(t, case["s"]))[1]
     return out
 
 
@@ -792,10 +979,12 @@ def compare(ctx, case, out, mouts):
         if near:
             ctx.branch("excluded_near_tie")
             return
-        for key, m in zip(("inc", "between", "between0"), mouts):
+        for key, m in zip(("inc", "between", "between0", "pv"), list(mouts) + [mouts[2]]):
             mm = {"ok": m["ok"]} if "ok" in m else m
-            res_eq(ctx, "array/" + key, case, out[key], mm, scale)
+            if out[key] is not None:
+                res_eq(ctx, "array/" + key, case, out[key], mm, scale)
         ctx.branch("arr_" + ("ok" if "ok" in out["between"] else out["between"]["err"]))
+        ctx.branch("arep=" + case.get("rep", "f64"))
         if "ok" in out["between"]:
             ctx.nt(("arr", tuple(case["r"])))
         return
@@ -842,8 +1031,11 @@ def compare(ctx, case, out, mouts):
     if 0.0 < g < 1e-9 or (mg and 0 < mg[0] < Fraction(1, 10 ** 9) * scale):
         ctx.branch("excluded_near_tie")
     else:
-        for key in ("inc", "between", "between0", "sum"):
-            res_eq(ctx, "parse/" + key, case, out[key], m["ok"][key], scale)
+        for key, mkey in (("inc", "inc"), ("inc_fn", "inc"), ("between", "between"), ("between0", "between0"), ("pv", "between0"),
+                          ("sum", "sum")):
+            if out[key] is not None:
+                res_eq(ctx, "parse/" + key, case, out[key], m["ok"][mkey], scale)
+        ctx.branch("arep=" + out.get("arep_used", "f64"))
     # alternative spellings
     for a, ao, am in zip(case.get("alts", []), out["alts"], mouts[1:]):
         if am.get("err") == "unsupported":
@@ -870,22 +1062,27 @@ def md5id(values):
     return int(hashlib.md5(np.array(values, dtype=float).tobytes()).hexdigest()[:8], 16)
 
 
-def check_boundaries(ctx, case, r, inc, bet, bet0, where):
-    """increments / between-radii clauses for radii r (floats: strictly increasing, r[0] >= 0)"""
+def check_boundaries(ctx, case, r, inc, bet, bet0, where, inc_fn=None, pv=None):
+    """increments / between-radii clauses for radii r (floats: strictly increasing, r[0] >= 0); inc_fn = the module-level
+    get_increments on the chosen representation, pv = PositionVoronoi(..).get_voronoi_radii() (boundaries with the zero)"""
     T = len(r)
     tol = TOL_REL * max(r)
-    if "ok" not in inc:
-        ctx.fail("C16:increments", f"{where}: get_increments raised {inc['err']} for strictly increasing non-negative radii", case,
-                 observed=inc)
-        return
-    iv = inc["ok"]
-    want = [r[0]] + [r[k] - r[k - 1] for k in range(1, T)]
-    if len(iv) != T or any(abs(a - b) > tol for a, b in zip(iv, want)) or any(not (v > 0) for v in iv[1:]) or not (iv[0] >= 0):
-        ctx.fail("C16:increments", f"{where}: increments are not [r_1, r_2-r_1, ...] (differences positive)", case, want, iv)
-        return
-    for name, res, zero in (("between", bet, False), ("between0", bet0, True)):
+    for inc in [inc] + ([inc_fn] if inc_fn is not None else []):
+        if "ok" not in inc:
+            ctx.fail("C16:increments", f"{where}: get_increments raised {inc['err']} for strictly increasing non-negative radii",
+                     case, observed=inc)
+            return
+        iv = inc["ok"]
+        want = [r[0]] + [r[k] - r[k - 1] for k in range(1, T)]
+        if len(iv) != T or any(abs(a - b) > tol for a, b in zip(iv, want)) or any(not (v > 0) for v in iv[1:]) or not (iv[0] >= 0):
+            ctx.fail("C16:increments", f"{where}: increments are not [r_1, r_2-r_1, ...] (differences positive)", case, want, iv)
+            return
+    for name, res, zero in (("between", bet, False), ("between0", bet0, True)) + ((("voronoi_radii", pv, True),) if pv else ()):
         if "ok" not in res:
-            ctx.fail("C16:between", f"{where}: get_between_radii(include_zero={zero}) raised {res['err']}", case, observed=res)
+            ctx.fail("C16:between", f"{where}: {name} (include_zero={zero}) raised {res['err']}", case, observed=res)
+            return
+        if len(res.get("shape", [0])) != 1:
+            ctx.fail("C16:between", f"{where}: {name} is not a flat array: shape {res['shape']}", case, observed=res)
             return
         R = res["ok"]
         if zero:
@@ -919,10 +1116,22 @@ def oracle(ctx, case, out):
         r = [float(core.unrat(v)) for v in case["r"]]
         T = len(r)
         if T >= 1 and r[0] >= 0 and all(b - a > 1e-9 * r[-1] for a, b in zip(r, r[1:])) and r == sorted(r):
-            check_boundaries(ctx, case, r, out["inc"], out["between"], out["between0"], "array")
+            check_boundaries(ctx, case, r, out["inc"], out["between"], out["between0"],
+                             f"array given as {case.get('rep', 'f64')}", pv=out["pv"])
         return
+    if out_of_float_range(case):
+        return
+    if "trep" in out:
+        # the same text in another representation the constructor accepts: same outcome, bit for bit
+        t, base = out["trep"], {k: out.get(k) for k in ("err", "grid", "hash", "N")}
+        if ("err" in out) != ("err" in t) or base != {k: t.get(k) for k in ("err", "grid", "hash", "N")} or \
+                [math.copysign(1, v) for v in out.get("grid", [])] != [math.copysign(1, v) for v in t.get("grid", [])]:
+            ctx.fail("C16:text_representation", f"the text given as {case['trep']} does not give the outcome of the plain str", case,
+                     base, {k: t.get(k) for k in ("err", "grid", "hash", "N")})
+            return
+        ctx.branch("trep=" + case["trep"])
     want = intended(case["intent"])
-    if want == "skip" or out_of_float_range(case):
+    if want == "skip":
         return
     accepted = "err" not in out
     if want is None:
@@ -1004,7 +1213,8 @@ def oracle(ctx, case, out):
     if g[0] == 0:
         # a zero first radius is an accepted distance; since cae935f increments and boundaries must exist for it too
         ctx.branch("first_radius_zero")
-    check_boundaries(ctx, case, g, out["inc"], out["between"], out["between0"], "grid")
+    check_boundaries(ctx, case, g, out["inc"], out["between"], out["between0"], f"grid handed on as {out.get('arep_used', 'f64')}",
+                     inc_fn=out.get("inc_fn"), pv=out.get("pv"))
     if "ok" in out.get("sum", {}):
         s = out["sum"]["ok"][0]
         if abs(s - (g[-1] - g[0])) > 1e-9 * g[-1]:
